@@ -21,7 +21,9 @@ type RawImpl struct {
 	Names func(pkg string, tracker string, types []*TypeSpec) (names []string, importLines []string)
 }
 
-var rawPaths = []string{"k8s.io/api/core/v1", "k8s.io/apimachinery/pkg/apis/meta/v1", "a/b-c/d.e", "example.com/out/v1", "x", "my.org/api/v1", "a/b", "other/b", "go/types", "x/type", "net/port", "im/port", "inter/face", "other/face"}
+var rawPaths = []string{"k8s.io/api/core/v1", "k8s.io/apimachinery/pkg/apis/meta/v1", "a/b-c/d.e", "example.com/out/v1", "x", "my.org/api/v1", "a/b", "other/b", "go/types", "x/type", "net/port", "im/port", "inter/face", "other/face",
+	// leaves that spell a keyword only once '_', '.' and '-' are dropped; three packages sharing their last two elements
+	"x/type_", "y/go.", "z/fall-through", "a.example/api/core/v1", "b.example/client/core/v1"}
 var rawNames = []string{"Pod", "Foo", "T1", "Baz", "Time", "X"}
 
 func pkgIdent(path string) string {
@@ -47,6 +49,9 @@ type mapImporter struct {
 func (m mapImporter) Import(path string) (*gotypes.Package, error) {
 	if p, ok := m.pkgs[path]; ok {
 		return p, nil
+	}
+	if path == "unsafe" {
+		return gotypes.Unsafe, nil
 	}
 	return nil, fmt.Errorf("package %q not declared", path)
 }
